@@ -150,9 +150,23 @@ def gen_single(rng, idx):
     inl = [l0 + DL * i for i in range(n)]
     extras = {}
     if idx % 3 == 0:
-        extras['scale'] = rng.choice([2.0, 0.5, 3.0, 10.0, 0.25])
-    return {'f': 'combine', 'shape': 'single', 'kind': kind, 'variant': variant, 'inloglam': inl, 'flux': flux, 'ivar': ivar,
+        # moderate factors, cgs-like tiny fluxes (1e-17 with ivar * 1e34), and large factors (ivar far below float32 eps)
+        extras['scale'] = [2.0, 0.5, 3.0, 10.0, 1e-17, 1e-8, 1e4, 1e6, 0.25, 1e-17][(idx // 3) % 10]
+    call = {'f': 'combine', 'shape': 'single', 'kind': kind, 'variant': variant, 'inloglam': inl, 'flux': flux, 'ivar': ivar,
             'newloglam': new, 'kwargs': {'aesthetics': method}, 'extras': extras, 'level': level}
+    # flux stored as integer counts or float32 (values made exactly representable first)
+    t = idx % 11
+    if t in (3, 7) and kind != 'const':
+        call['flux'] = [float(round(100 + 40 * (f - level))) for f in call['flux']]
+        call['flux_dtype'] = 'int32' if t == 3 else 'int64'
+        call['kind'] = 'noisy'
+    elif t == 9:
+        import struct
+        call['flux'] = [struct.unpack('f', struct.pack('f', f))[0] for f in call['flux']]
+        call['flux_dtype'] = 'float32'
+        if call['ivar'] is not None and idx % 2:
+            call['ivar_dtype'] = 'float32'
+    return call
 
 
 def gen_const_noivar(rng, idx):
@@ -160,12 +174,13 @@ def gen_const_noivar(rng, idx):
     is zero), all aesthetics methods incl. damp"""
     n = rng.randint(60, 120)
     l0 = 3.5
-    level = [1.0, 3.0, 7.25, 100.0, 0.5][idx % 5]
+    level = [1.0, 3.0, 7.25, 100.0, 0.5, 1.5e-17, 2.0 ** -60][idx % 7]
     variant = ['same', 'shift', 'wider', 'narrower'][idx % 4]
     method = ['traditional', 'mean', 'damp', 'nothing', 'noconst', 'damp'][idx % 6]
     with_ivar = idx % 3 == 2
     return {'f': 'combine', 'shape': 'single', 'kind': 'const', 'variant': variant, 'inloglam': [l0 + DL * i for i in range(n)],
-            'flux': [level] * n, 'ivar': ([4.0] * n if with_ivar else None), 'newloglam': out_grid(rng, n, l0, variant),
+            'flux': [level] * n, 'ivar': ([4.0 / (level * level) if level < 1e-6 else 4.0] * n if with_ivar else None),
+            'newloglam': out_grid(rng, n, l0, variant),
             'kwargs': {'aesthetics': method}, 'extras': {}, 'level': level}
 
 
@@ -397,7 +412,11 @@ def correspond(ctx, proof_ok=True):
                     oki = close_vec(sc['newivar'], [v / (s * s) for v in ni], 1e-9) and \
                         [v == 0 for v in sc['newivar']] == [v == 0 for v in ni]
                 if not (okf and oki):
-                    viol('C11:combine1fiber:scaling-law', 'flux*c, ivar/c^2 does not scale the outputs likewise (c=%s)' % s, c, r)
+                    lost = sum(1 for a, b in zip(sc['newivar'], ni) if a == 0 and b > 0)
+                    viol('C11:combine1fiber:scaling-law:%s' % ('large-c' if s >= 100 else ('tiny-c' if s <= 1e-6 else 'moderate-c')),
+                         'flux*c, ivar/c^2 does not scale the outputs likewise (c=%g): %d output pixels lose their inverse variance'
+                         % (s, lost), c, r,
+                         extra={'meaning': 'scaling flux by c and inverse variance by 1/c^2 must scale newflux by c and newivar by 1/c^2'})
         if c['kwargs']['aesthetics'] == 'damp':
             stats['damp'] += 1          # erf: not modelled; covered by the direct checks above only
             continue
